@@ -33,6 +33,10 @@ def states(tier, seed):
         st.append(dict(part="loads", nx=nx, ny=ny, side=side, pf=pf, origin=fo, fam=fam))
     for nx, (side, ny), pf, nsurf in itertools.product(nxs, sides, ["swept", "twdi"], [1, 2]):
         st.append(dict(part="mpf", nx=nx, ny=ny, side=side, pf=pf, nsurf=nsurf, fam=fam))
+    # the transfer inside the coupled aerostructural point, two surfaces of IDENTICAL mesh shape with different spar locations /
+    # structural models: each surface's nodal loads carry the force and moment of ITS panel forces on the converged deformed mesh
+    for pair, sym, nx in itertools.product(["tube0.35+tube0.6", "tube0.25+wingbox", "wingbox+tube0.7"], [True, False], [2, 3]):
+        st.append(dict(part="coupled", pair=pair, sym=sym, nx=nx, fam=fam))
     # the flattened nodal vectors handed to external solvers (MPhys export chain) for every ordered selection of 1-3 surfaces
     # of different sizes
     for n in (1, 2, 3):
@@ -252,6 +256,47 @@ def part_export(s):
                 if not e <= TOL:
                     viol.append(dict(sig=dict(oracle="moment_conservation", observable="exported_nodal_forces", mesh=tag, **wh), msg="moment of the exported nodal forces on the %s mesh differs from that of the panel forces by %.2e" % (tag, e), measure=float(e)))
     return dict(viol=viol, nontrivial=True, digest=digest_arrays(fa, x0), transitions=len(fields), validated=val)
+
+
+def part_coupled(s):
+    sym, fam = s["sym"], s["fam"]
+    side = "left" if sym else "full"
+    ny = 3 if sym else 5
+    surfs = []
+    for k, spec in enumerate(s["pair"].split("+")):
+        m = gen.make_mesh(["swept", "twdi"][k], s["nx"], ny, side, fam, asym=not sym, span=[10.0, 5.0][k], chord=[1.6, 1.0][k], offset=[[0, 0, 0], [7.0, 0.0, 0.8]][k])
+        kw = dict(struct_weight_relief=True, with_viscous=True)
+        if spec.startswith("tube"):
+            surfs.append(builders.struct_surface(["wing", "tail"][k], m, sym, "tube", fem_origin=float(spec[4:]), thickness_cp=np.array([0.02, 0.03]) * [1.0, 0.5][k], **kw))
+        else:
+            surfs.append(builders.struct_surface(["wing", "tail"][k], m, sym, "wingbox", **kw))
+    p = builders.build_aerostruct(surfs, dict(Mach_number=0.5, W0=2.0e3, v=100.0, rho=0.9, alpha=4.0, beta=0.0 if sym else 3.0, speed_of_sound=200.0, R=2.0e6, load_factor=1.3))
+    builders.tighten(p, nl="default", lin="default")
+    p.run_model()
+    viol, val = [], 0
+    A = "AS_point_0.coupled."
+    refs = [np.zeros(3), np.array([3.0, -2.0, 1.0])]
+    for sf in surfs:
+        n = sf["name"]
+        dm = np.array(p[A + n + ".def_mesh"])
+        F = np.array(p[A + "aero_states." + n + "_sec_forces"])
+        L = np.array(p[A + n + "_loads.loads"])
+        pts = np.array(p[n + ".nodes"]) + np.array(p[A + n + ".disp"])[:, :3]
+        qc = 0.75 * dm[:-1] + 0.25 * dm[1:]
+        ap_ = 0.5 * (qc[:, :-1] + qc[:, 1:])
+        sc = max(np.abs(F).sum(), 1e-300)
+        val += 1
+        e = np.abs(L[:, :3].sum(axis=0) - F.reshape(-1, 3).sum(axis=0)).max() / sc
+        if not e <= 1e-10:
+            viol.append(dict(sig=dict(oracle="force_conservation", part="coupled", surf=n), msg="%s: nodal loads of the coupled point do not sum to its panel forces (rel %.2e)" % (n, e), measure=float(e)))
+        for r in refs:
+            val += 1
+            Mn = (np.cross(pts - r, L[:, :3]) + L[:, 3:]).sum(axis=0)
+            Ma = np.cross(ap_ - r, F).reshape(-1, 3).sum(axis=0)
+            e = np.abs(Mn - Ma).max() / (sc * max(np.abs(ap_ - r).max(), 1.0))
+            if not e <= 1e-9:
+                viol.append(dict(sig=dict(oracle="moment_conservation", part="coupled", surf=n), msg="%s (%s): total moment of the nodal loads at the displaced nodes differs from that of the panel forces at the quarter-chord points of the deformed mesh by %.2e" % (n, s["pair"], e), measure=float(e)))
+    return dict(viol=viol, nontrivial=True, digest=digest_arrays(L), transitions=1, validated=val)
 
 
 def part_mpf(s):
